@@ -50,6 +50,8 @@ def grid(rng, m, variant=0):
         base = base.copy()
         # a visible difference, or one of a few units in the last places: any difference makes the sampling points differ
         base[-1] += 1 / 16.0 if rng.uniform() < 0.5 else 2.0 ** -24
+    elif variant == 3:
+        base = 2.0 * base + 1.0          # another grid with the SAME standardised sampling points
     elif variant == 2:
         base = np.sort(np.unique(np.round(rng.uniform(0, 4, size=4 * m) * 32) / 32))[:m]
         if len(base) < m:
@@ -193,6 +195,8 @@ def gen_pair(rng, case, how):
         elif how == "dim":
             q = pts + [2] if dim == 1 else pts[:1]
             b = gen_dense(rng, len(q), n, q, divisor=True)
+        elif how == "gridaffine":
+            b = gen_dense(rng, dim, n, pts, gvar=3, divisor=True)
         else:
             b = gen_dense(rng, dim, n, pts, gvar=1, divisor=True)
         return a, b
@@ -211,6 +215,8 @@ def gen_pair(rng, case, how):
     elif how == "dim":
         q = [p + [2] for p in ptss] if dim == 1 else [p[:1] for p in ptss]
         b = gen_irr(rng, len(q[0]), q, divisor=True)
+    elif how == "gridaffine":
+        b = gen_irr(rng, dim, ptss, gvar=3, divisor=True)
     else:
         b = gen_irr(rng, dim, ptss, gvar=1, divisor=True)
     return a, b
@@ -308,7 +314,7 @@ def arithmetic(rep, col, rng, quick):
     run = C.CoqRun("C12", IMPORTS, shard=10)
     todo = []
     cases = ["dense1d", "dense2d", "irr1d", "irr2d"]
-    hows = ["ok", "nobs1shared", "gridlate", "type", "nobs", "npoints", "dim", "grid", "nobs1", "oksubset"]
+    hows = ["ok", "nobs1shared", "gridlate", "type", "nobs", "npoints", "dim", "grid", "nobs1", "oksubset", "gridaffine"]
     n_pairs = 48 if quick else 800
     for i in range(n_pairs):
         case, how = cases[i % 4], hows[(i // 4) % len(hows)]
@@ -535,7 +541,7 @@ def equality(rep, col, rng, quick):
             pairs.append((case, "late-grid-same-values-swapped", lg, am))
             pairs.append((case, "late-values-same-grid", am, lv))
             pairs.append((case, "late-values-same-grid-swapped", lv, am))
-            for how in ("type", "nobs", "npoints", "dim", "grid", "gridlate"):
+            for how in ("type", "nobs", "npoints", "dim", "grid", "gridlate", "gridaffine"):
                 a2, b2 = gen_pair(rng, case, how)
                 pairs.append((case, "shape-" + how, a2, b2))
                 if i % 2:
